@@ -13,6 +13,9 @@ theories/Model/EvalImpl.vos theories/Model/EvalImpl.vok theories/Model/EvalImpl.
 theories/Model/Expr.vo theories/Model/Expr.glob theories/Model/Expr.v.beautified theories/Model/Expr.required_vo: theories/Model/Expr.v theories/Spec/BV.vo
 theories/Model/Expr.vio: theories/Model/Expr.v theories/Spec/BV.vio
 theories/Model/Expr.vos theories/Model/Expr.vok theories/Model/Expr.required_vos: theories/Model/Expr.v theories/Spec/BV.vos
+theories/Model/WitnessIO.vo theories/Model/WitnessIO.glob theories/Model/WitnessIO.v.beautified theories/Model/WitnessIO.required_vo: theories/Model/WitnessIO.v 
+theories/Model/WitnessIO.vio: theories/Model/WitnessIO.v 
+theories/Model/WitnessIO.vos theories/Model/WitnessIO.vok theories/Model/WitnessIO.required_vos: theories/Model/WitnessIO.v 
 theories/Proofs/BVLemmas.vo theories/Proofs/BVLemmas.glob theories/Proofs/BVLemmas.v.beautified theories/Proofs/BVLemmas.required_vo: theories/Proofs/BVLemmas.v theories/Spec/BV.vo
 theories/Proofs/BVLemmas.vio: theories/Proofs/BVLemmas.v theories/Spec/BV.vio
 theories/Proofs/BVLemmas.vos theories/Proofs/BVLemmas.vok theories/Proofs/BVLemmas.required_vos: theories/Proofs/BVLemmas.v theories/Spec/BV.vos
@@ -25,6 +28,15 @@ theories/Proofs/EvalProofs.vos theories/Proofs/EvalProofs.vok theories/Proofs/Ev
 theories/Proofs/ExprLemmas.vo theories/Proofs/ExprLemmas.glob theories/Proofs/ExprLemmas.v.beautified theories/Proofs/ExprLemmas.required_vo: theories/Proofs/ExprLemmas.v theories/Model/Expr.vo
 theories/Proofs/ExprLemmas.vio: theories/Proofs/ExprLemmas.v theories/Model/Expr.vio
 theories/Proofs/ExprLemmas.vos theories/Proofs/ExprLemmas.vok theories/Proofs/ExprLemmas.required_vos: theories/Proofs/ExprLemmas.v theories/Model/Expr.vos
+theories/Proofs/WitnessIOProofs.vo theories/Proofs/WitnessIOProofs.glob theories/Proofs/WitnessIOProofs.v.beautified theories/Proofs/WitnessIOProofs.required_vo: theories/Proofs/WitnessIOProofs.v theories/Model/WitnessIO.vo theories/Proofs/WitnessTextLemmas.vo
+theories/Proofs/WitnessIOProofs.vio: theories/Proofs/WitnessIOProofs.v theories/Model/WitnessIO.vio theories/Proofs/WitnessTextLemmas.vio
+theories/Proofs/WitnessIOProofs.vos theories/Proofs/WitnessIOProofs.vok theories/Proofs/WitnessIOProofs.required_vos: theories/Proofs/WitnessIOProofs.v theories/Model/WitnessIO.vos theories/Proofs/WitnessTextLemmas.vos
+theories/Proofs/WitnessTextLemmas.vo theories/Proofs/WitnessTextLemmas.glob theories/Proofs/WitnessTextLemmas.v.beautified theories/Proofs/WitnessTextLemmas.required_vo: theories/Proofs/WitnessTextLemmas.v theories/Model/WitnessIO.vo
+theories/Proofs/WitnessTextLemmas.vio: theories/Proofs/WitnessTextLemmas.v theories/Model/WitnessIO.vio
+theories/Proofs/WitnessTextLemmas.vos theories/Proofs/WitnessTextLemmas.vok theories/Proofs/WitnessTextLemmas.required_vos: theories/Proofs/WitnessTextLemmas.v theories/Model/WitnessIO.vos
 theories/Props/C06.vo theories/Props/C06.glob theories/Props/C06.v.beautified theories/Props/C06.required_vo: theories/Props/C06.v theories/Model/EvalImpl.vo theories/Proofs/EvalProofs.vo theories/Proofs/EvalImplProofs.vo
 theories/Props/C06.vio: theories/Props/C06.v theories/Model/EvalImpl.vio theories/Proofs/EvalProofs.vio theories/Proofs/EvalImplProofs.vio
 theories/Props/C06.vos theories/Props/C06.vok theories/Props/C06.required_vos: theories/Props/C06.v theories/Model/EvalImpl.vos theories/Proofs/EvalProofs.vos theories/Proofs/EvalImplProofs.vos
+theories/Props/C16.vo theories/Props/C16.glob theories/Props/C16.v.beautified theories/Props/C16.required_vo: theories/Props/C16.v theories/Model/WitnessIO.vo theories/Proofs/WitnessTextLemmas.vo theories/Proofs/WitnessIOProofs.vo
+theories/Props/C16.vio: theories/Props/C16.v theories/Model/WitnessIO.vio theories/Proofs/WitnessTextLemmas.vio theories/Proofs/WitnessIOProofs.vio
+theories/Props/C16.vos theories/Props/C16.vok theories/Props/C16.required_vos: theories/Props/C16.v theories/Model/WitnessIO.vos theories/Proofs/WitnessTextLemmas.vos theories/Proofs/WitnessIOProofs.vos
